@@ -55,7 +55,15 @@ def gen_case(rng, tier, i):
             "fill": {"X": fillv(rng), "Y": fillv(rng)},
             "call_boundary": rng.choice([None, None, "fill", "extend", {"X": "extend"}]),
             "data": rngdata(), "partner": rngdata() if vec else None}
-    if vec and rng.random() < 0.2:
+    if rng.random() < 0.1:
+        # missing values (land) in the data, also right at the face edges: a halo cell whose source cell is missing
+        # is missing - the link is not silently replaced by the boundary rule
+        case["nan_data"] = True
+        for key in ("data", "partner"):
+            if case[key]:
+                for _ in range(rng.randint(1, 4)):
+                    case[key][rng.randrange(len(case[key]))] = None
+    elif vec and rng.random() < 0.2:
         # components of different types: an integer-typed component next to a float partner with non-integral values
         # (what crosses an axis-swapping link must arrive unrounded); integral fill values keep numpy's own
         # constant padding of an integer array exact
@@ -73,14 +81,15 @@ def build(case):
     grid = fg.make_grid(ds, tbl, case["boundary"], case["fill"])
     order = case["order"]
     shape = [ds.sizes[d] for d in order]
-    da = xr.DataArray(np.array(case["data"], dtype=np.int64 if case.get("int_comp") else float).reshape(shape),
-                      dims=order, name="q")
+    da = xr.DataArray(np.array([np.nan if v is None else v for v in case["data"]],
+                               dtype=np.int64 if case.get("int_comp") else float).reshape(shape), dims=order, name="q")
     partner = None
     if case["vec"]:
         other = "Y" if case["vec"] == "X" else "X"
         pd = VEC_DIMS[other]
         porder = [{case["dims"][0]: pd[0], case["dims"][1]: pd[1]}.get(d, d) for d in order]
-        partner = xr.DataArray(np.array(case["partner"], dtype=float).reshape(shape), dims=porder, name="p")
+        partner = xr.DataArray(np.array([np.nan if v is None else v for v in case["partner"]], dtype=float).reshape(shape),
+                               dims=porder, name="p")
     return ds, tbl, grid, da, partner
 
 
@@ -151,6 +160,8 @@ def eval_case(case, drv):
         return {"corr_ok": ok, "prop_ok": ok, "branch": "zero-width", "detail": None}
     got = fg.exact(fg.canon_faces(res, *case["dims"]))
     model = fg.dec_faces(drv.ask(line), case["nf"], R)
+    if case.get("nan_data"):
+        model = fg.nanify(model)
     corr_ok = got.shape == model.shape and bool((got == model).all())
     want, mask = fg.spec_padded(tbl, fg.exact(data4), None if partner4 is None else fg.exact(partner4),
                                 case["vec"], req, rules, case["fill"])
